@@ -6,6 +6,7 @@ AST (JSON):
   stmt  ::= {"op":"yield","x":v,"s":struct} | {"op":"let","h":hv,"f":fexpr} | {"op":"sync","x":v,"h":hv}
           | {"op":"with","c":ctx,"body":body} | {"op":"try","body":body,"x":v,"handler":body}
           | {"op":"read","x":v,"var":n} | {"op":"probe"}
+          | {"op":"enter","v":cv,"c":ctx} | {"op":"exit","v":cv,"c":ctx}     (explicit __enter__/__exit__, need not nest)
           | {"op":"return","e":expr} | {"op":"result","e":expr} | {"op":"raise","e":id}
   struct::= None | "bad" | {"new":fexpr} | {"old":hv} | {"tuple":[struct]} | {"list":[struct]} | {"dict":[[k,struct]]}
   fexpr ::= {"task":body} | {"item":[kind,key,act]} | {"const":val} | {"error":id} | {"lazy":outcome}
@@ -157,6 +158,10 @@ def _cstmts(stmts, ctr, kn, ke, kr):
                         lambda e: "Exit %s (%s)" % (c, ke(e)),
                         lambda v, res: "Exit %s (%s)" % (c, kr(v, res)))
         return "Enter %s (%s)" % (c, inner)
+    if op == "enter":
+        return "Enter %s (%s)" % (cctx(st["c"]), R())
+    if op == "exit":
+        return "Exit %s (%s)" % (cctx(st["c"]), R())
     if op == "try":
         kname, hname, ev = ctr.fresh("k"), ctr.fresh("hd"), ctr.fresh("e")
         handler = _cstmts(st["handler"], ctr, lambda: "%s tt" % kname, ke, kr)
@@ -320,7 +325,9 @@ def _pstmts(stmts, py, ind):
                 py.emit(ind, "_s = T.pre_yield(_id, _k, %s)" % ("_y" if i == 0 else "_s"))
                 py.emit(ind, "try:")
                 py.emit(ind + 1, "%s = yield _y" % var)
-                py.emit(ind, "except Exception as _e:")
+                py.emit(ind, "except (GeneratorExit, T.Hang):")
+                py.emit(ind + 1, "raise")
+                py.emit(ind, "except BaseException as _e:")
                 py.emit(ind + 1, "T.step_err(_id, _k, _e, _s); raise")
                 py.emit(ind, "else:")
                 py.emit(ind + 1, "T.step(_id, _k, %s, _s)" % var)
@@ -331,7 +338,9 @@ def _pstmts(stmts, py, ind):
             py.emit(ind, "T.pre_sync(_id, %s)" % st["h"])
             py.emit(ind, "try:")
             py.emit(ind + 1, "%s = %s.value()" % (st["x"], st["h"]))
-            py.emit(ind, "except Exception as _e:")
+            py.emit(ind, "except (GeneratorExit, T.Hang):")
+            py.emit(ind + 1, "raise")
+            py.emit(ind, "except BaseException as _e:")
             py.emit(ind + 1, "T.got_err(_id, _e); raise")
             py.emit(ind, "else:")
             py.emit(ind + 1, "T.got(_id, %s)" % st["x"])
@@ -339,11 +348,18 @@ def _pstmts(stmts, py, ind):
             py.emit(ind, "with T.ctx(%r, _id):" % (st["c"],))
             _pstmts(st["body"], py, ind + 1)
             py.emit(ind + 1, "pass")
+        elif op == "enter":
+            py.emit(ind, "%s = T.ctx(%r, _id)" % (st["v"], st["c"]))
+            py.emit(ind, "%s.__enter__()" % st["v"])
+        elif op == "exit":
+            py.emit(ind, "%s.__exit__(None, None, None)" % st["v"])
         elif op == "try":
             py.emit(ind, "try:")
             _pstmts(st["body"], py, ind + 1)
             py.emit(ind + 1, "pass")
-            py.emit(ind, "except Exception as _ex:")
+            py.emit(ind, "except (GeneratorExit, T.Hang):")
+            py.emit(ind + 1, "raise")
+            py.emit(ind, "except BaseException as _ex:")
             py.emit(ind + 1, "%s = _ex" % st["x"])
             _pstmts(st["handler"], py, ind + 1)
         elif op == "read":
